@@ -42,11 +42,18 @@ OBLIGATIONS = [
     "Grog.C04.errchan_deadlock_witness2",
     "Grog.C04.errchan_deadlock_general",
     "Grog.C04.lost_wakeup_witness",
+    "Grog.C04.spurious_cancel_is_a_failure",
+    "Grog.C04.spurious_cancel_hang_witness_old",
+    "Grog.C04.completions_cover_cancelled",
+    "Grog.C04.pool_no_deadlock",
+    "Grog.C04.pool_stranded_witness",
 ]
 ASSUMPTIONS = [
     "selection closed under dependencies and graph acyclic (CfgOK)",
-    "every entered callback eventually returns unless the context is cancelled (then Walk returns through ctx.Done)",
-    "a callback returns context.Canceled only under a cancelled walk context",
+    "every entered callback eventually returns unless the context is cancelled (then Walk returns through ctx.Done); for the pool half "
+    "this is pool_no_deadlock (a queued job is always served while the pool context is alive) plus: commands end (timeouts, C14)",
+    "NOT assumed any more: 'a callback returns context.Canceled only under a cancelled walk context' - the model has the spurious case "
+    "(cbReturn n .cancelled with ctx = false), it is a failure (spurious_cancel_is_a_failure), the harness injects it (failKind spurious-cancel)",
 ]
 
 
